@@ -145,7 +145,7 @@ def reader_work(exe, mode, start, items):
 
 # ------------------------------------------------------------------------------------------------------------------------------
 # Monitor 2
-SOLVER_FAMILIES = ["cons", "tp", "pin", "obj", "sv", "rr", "tl", "rules", "sx", "cyc", "sync", "examples"]
+SOLVER_FAMILIES = ["cons", "tp", "pin", "obj", "sv", "rr", "tl", "rules", "sx", "cyc", "sync", "task", "examples"]
 TINY_FAMILIES = ("cons", "tp", "pin", "sx")       # a handful of variables / at most five atoms: a search that does not finish in minutes does not terminate
 
 
